@@ -119,6 +119,18 @@ def lexical_guards(fi: FunctionInfo, node: ast.AST):
     return out
 
 
+_FLIP = {ast.Lt: ast.Gt, ast.Gt: ast.Lt, ast.LtE: ast.GtE, ast.GtE: ast.LtE, ast.Eq: ast.Eq, ast.NotEq: ast.NotEq}
+
+
+def mirror_texts(node: ast.AST):
+    """the source text of a comparison and of its mirrored spelling (a < b / b > a); a one-element set for anything else."""
+    out = {" ".join(ast.unparse(node).split())}
+    if isinstance(node, ast.Compare) and len(node.ops) == 1 and type(node.ops[0]) in _FLIP:
+        m = ast.Compare(left=node.comparators[0], ops=[_FLIP[type(node.ops[0])]()], comparators=[node.left])
+        out.add(" ".join(ast.unparse(m).split()))
+    return out
+
+
 def atomic_facts(guards):
     """decompose path conditions [(test ast, 'T'|'F'), ...] into atomic (text, bool) facts:
     (A or B) false => A false, B false;  (A and B) true => A true, B true;  not A flips."""
@@ -138,6 +150,9 @@ def atomic_facts(guards):
             add(ast.Compare(left=t.left, ops=[pos], comparators=t.comparators), not truth)
         else:
             out.add((" ".join(ast.unparse(t).split()), truth))
+            if isinstance(t, ast.Compare) and len(t.ops) == 1 and type(t.ops[0]) in _FLIP:      # the mirrored spelling is the same fact
+                m = ast.Compare(left=t.comparators[0], ops=[_FLIP[type(t.ops[0])]()], comparators=[t.left])
+                out.add((" ".join(ast.unparse(m).split()), truth))
     for t, lab in guards:
         add(t, lab.startswith("T"))
     return out
@@ -190,3 +205,20 @@ def name_free(fi, node: ast.AST, depth: int = 2, width: int = 90) -> str:
     out = R(depth).visit(copy.deepcopy(node))
     s = " ".join(ast.unparse(ast.fix_missing_locations(out)).split())
     return s if len(s) <= width else s[: width - 3] + "..."
+
+
+def effective(body):
+    """the statements of a block without the ones that cannot matter to a rule about what is computed: `pass`, docstrings and
+    other constant expression statements, and calls to logger.* / logging.* / print / warnings.warn used as statements."""
+    out = []
+    for st in body:
+        if isinstance(st, ast.Pass):
+            continue
+        if isinstance(st, ast.Expr) and isinstance(st.value, ast.Constant):
+            continue
+        if isinstance(st, ast.Expr) and isinstance(st.value, ast.Call):
+            f = " ".join(ast.unparse(st.value.func).split())
+            if f in ("print", "warnings.warn") or f.split(".")[0] in ("logger", "logging", "log"):
+                continue
+        out.append(st)
+    return out
